@@ -5,7 +5,7 @@ from mc import driver as D
 
 PROP = 'C19'
 RULE = ('complete product: every placement of one fragment (and of ordered pairs of fragments) from the suspicious / innocent '
-        'alphabet over sheets {first, second with a space in the title, third non-ASCII} x columns {A,B,C,Y,Z,AA,AZ,BA} x rows '
+        'alphabet over sheets {first, second with a space and an apostrophe in the title, third non-ASCII} x columns {A,B,C,Y,Z,AA,AZ,BA} x rows '
         '{1,2,3,12,27}, gate enabled and disabled; expected report built from the planted positions.  non-trivial = workbook '
         'with a suspicious fragment placed where row number != position in the row, or a pair')
 ASSUMPTIONS = ['fragments mixing an upper-case call with a nested lower-case one are outside the alphabet (statement silent)',
@@ -20,8 +20,10 @@ SUSP = [('eval(1)', ['eval(1)']), ('os.system("x")', ['system("x")']), ('f()', [
 INNO = [('SUM(1,2)', None), ('=SUM(A1:A2)', None), ('=IF(A1>1,"a",2)', None), ('a (1)', None), ('text', None), (12, None),
         (True, None), ('SUM(1,\n2)', None), ('=ROUND(\nA1,1)', None), ('(1)', None), ('=A1*(B1+2)', None), (2.5, None),
         (('$array', '=SUM(A1:A2*2)'), None)]
-FRAGS = SUSP + INNO
-SHEETS = ['S', 'My Sheet', 'Лист3']
+# texts that open with a bracket (the first bracket is not the one of the call)
+SUSP2 = [('(os.system("x"))', ['system("x")']), ('(1, 2) and exit()', ['exit()']), ('((f()))', ['f()'])]
+FRAGS = SUSP + INNO + SUSP2          # appended: the indices used by the pair phase stay what they were
+SHEETS = ['S', "Bob's Sheet", 'Лист3']
 COLS = ['A', 'B', 'C', 'Y', 'Z', 'AA', 'AZ', 'BA']
 ROWS = [1, 2, 3, 12, 27]
 
